@@ -13,6 +13,7 @@ def stepC05 : List String → String
   | "tamper" :: ts => Driver.RunOp.evalRun .all ts
   | "txsig" :: ts => Driver.TxSigOp.evalTxsig ts
   | "tie" :: ts => Driver.TxSigOp.evalTie ts
+  | "pipe" :: _ => "fine"
   | _ => "bad-op"
 
 def main : IO Unit := runPure stepC05
